@@ -76,6 +76,7 @@ type Transport struct {
 // Expect binds oracles to an operation.
 type Expect struct {
 	Class        string   `json:"class,omitempty"`        // ok | reject | any | none
+	SameAsIfOK   string   `json:"sameAsIfOk,omitempty"`   // if this request is accepted at all, its decision is that op's
 	SameAs       string   `json:"sameAs,omitempty"`       // same verdict class as that op; byte-identical when accepted
 	SameResultAs string   `json:"sameResultAs,omitempty"` // same verdict class; identical `result` when accepted
 	Contains     []string `json:"contains,omitempty"`     // the error message must contain all of these
